@@ -30,7 +30,7 @@ func (p *Parser) parseExpression() (ast.Expression, error) {
 		return nil, goerrors.RecursionDepthLimitError(
 			p.depth,
 			MaxRecursionDepth,
-			models.Location{Line: 0, Column: 0},
+			p.currentLocation(),
 			"",
 		)
 	}
@@ -234,7 +234,7 @@ func (p *Parser) parseComparisonExpression() (ast.Expression, error) {
 			if err != nil {
 				return nil, goerrors.InvalidSyntaxError(
 					fmt.Sprintf("failed to parse IN value: %v", err),
-					models.Location{Line: 0, Column: 0},
+					p.currentLocation(),
 					"",
 				)
 			}
@@ -263,7 +263,7 @@ func (p *Parser) parseComparisonExpression() (ast.Expression, error) {
 		return nil, goerrors.ExpectedTokenError(
 			"BETWEEN, LIKE, or IN",
 			"NOT",
-			models.Location{Line: 0, Column: 0},
+			p.currentLocation(),
 			"",
 		)
 	}
@@ -313,7 +313,7 @@ func (p *Parser) parseComparisonExpression() (ast.Expression, error) {
 			if err != nil {
 				return nil, goerrors.InvalidSyntaxError(
 					fmt.Sprintf("failed to parse %s subquery: %v", quantifier, err),
-					models.Location{Line: 0, Column: 0},
+					p.currentLocation(),
 					"",
 				)
 			}
@@ -528,7 +528,7 @@ func (p *Parser) parseUnaryExpression() (ast.Expression, error) {
 			return nil, goerrors.RecursionDepthLimitError(
 				p.depth,
 				MaxRecursionDepth,
-				models.Location{Line: 0, Column: 0},
+				p.currentLocation(),
 				"",
 			)
 		}
@@ -813,7 +813,7 @@ func (p *Parser) parsePrimaryExpression() (ast.Expression, error) {
 			if err != nil {
 				return nil, goerrors.InvalidSyntaxError(
 					fmt.Sprintf("failed to parse subquery: %v", err),
-					models.Location{Line: 0, Column: 0},
+					p.currentLocation(),
 					"",
 				)
 			}
@@ -883,7 +883,7 @@ func (p *Parser) parsePrimaryExpression() (ast.Expression, error) {
 		if err != nil {
 			return nil, goerrors.InvalidSyntaxError(
 				fmt.Sprintf("failed to parse EXISTS subquery: %v", err),
-				models.Location{Line: 0, Column: 0},
+				p.currentLocation(),
 				"",
 			)
 		}
@@ -914,7 +914,7 @@ func (p *Parser) parsePrimaryExpression() (ast.Expression, error) {
 			if err != nil {
 				return nil, goerrors.InvalidSyntaxError(
 					fmt.Sprintf("failed to parse NOT EXISTS subquery: %v", err),
-					models.Location{Line: 0, Column: 0},
+					p.currentLocation(),
 					"",
 				)
 			}
@@ -948,7 +948,7 @@ func (p *Parser) parsePrimaryExpression() (ast.Expression, error) {
 	return nil, goerrors.UnexpectedTokenError(
 		p.currentToken.Type.String(),
 		p.currentToken.Literal,
-		models.Location{Line: 0, Column: 0},
+		p.currentLocation(),
 		"",
 	)
 }
@@ -973,7 +973,7 @@ func (p *Parser) parseCaseExpression() (*ast.CaseExpression, error) {
 		if err != nil {
 			return nil, goerrors.InvalidSyntaxError(
 				fmt.Sprintf("failed to parse CASE value: %v", err),
-				models.Location{Line: 0, Column: 0},
+				p.currentLocation(),
 				"",
 			)
 		}
@@ -989,7 +989,7 @@ func (p *Parser) parseCaseExpression() (*ast.CaseExpression, error) {
 		if err != nil {
 			return nil, goerrors.InvalidSyntaxError(
 				fmt.Sprintf("failed to parse WHEN condition: %v", err),
-				models.Location{Line: 0, Column: 0},
+				p.currentLocation(),
 				"",
 			)
 		}
@@ -1005,7 +1005,7 @@ func (p *Parser) parseCaseExpression() (*ast.CaseExpression, error) {
 		if err != nil {
 			return nil, goerrors.InvalidSyntaxError(
 				fmt.Sprintf("failed to parse THEN result: %v", err),
-				models.Location{Line: 0, Column: 0},
+				p.currentLocation(),
 				"",
 			)
 		}
@@ -1020,7 +1020,7 @@ func (p *Parser) parseCaseExpression() (*ast.CaseExpression, error) {
 	if len(caseExpr.WhenClauses) == 0 {
 		return nil, goerrors.InvalidSyntaxError(
 			"CASE expression requires at least one WHEN clause",
-			models.Location{Line: 0, Column: 0},
+			p.currentLocation(),
 			"",
 		)
 	}
@@ -1033,7 +1033,7 @@ func (p *Parser) parseCaseExpression() (*ast.CaseExpression, error) {
 		if err != nil {
 			return nil, goerrors.InvalidSyntaxError(
 				fmt.Sprintf("failed to parse ELSE result: %v", err),
-				models.Location{Line: 0, Column: 0},
+				p.currentLocation(),
 				"",
 			)
 		}
@@ -1272,7 +1272,7 @@ func (p *Parser) parseSubquery() (ast.Statement, error) {
 	return nil, goerrors.ExpectedTokenError(
 		"SELECT or WITH",
 		p.currentToken.Type.String(),
-		models.Location{Line: 0, Column: 0},
+		p.currentLocation(),
 		"",
 	)
 }
